@@ -157,7 +157,18 @@ def oracle(ctx):
             dv = float(np.linalg.norm((p1 - p0) / 2.0 - v)) / speed
             worst["dv"] = max(worst["dv"], dv)
             if dv > 0.0015:
-                ctx.violation("velocity_vs_derivative", case, {"v": list(v), "dpdt": list((p1 - p0) / 2.0), "rel": dv}, "<= 0.15 % of the speed", site="Orbital.get_position")
+                # the same classification as in the strong-drag corner: has the modelled orbit come within 100 km of the
+                # surface between the epoch and this time (known finding K-C20-NEAR-DECAY)?
+                kind, vcase = "velocity_vs_derivative", case
+                try:
+                    low_km = _model_secular(drv, o.tle, [us])[us][2] if drv is not None else None
+                    if low_km is not None:
+                        vcase = dict(case, model_low_km=low_km)
+                        if low_km < KARMAN_KM:
+                            kind = "velocity_vs_derivative_near_decay"
+                except Exception:  # noqa
+                    pass
+                ctx.violation(kind, vcase, {"v": list(v), "dpdt": list((p1 - p0) / 2.0), "rel": dv}, "<= 0.15 % of the speed", site="Orbital.get_position")
             r = float(np.linalg.norm(p))
             if not (rp_t - 40.0 <= r <= ra_t + 40.0):
                 ctx.violation("distance_band", case, r, "[%.3f, %.3f] km (perigee/apogee radii +-40 km)" % (rp_t - 40, ra_t + 40), site="Orbital.get_position")
